@@ -103,7 +103,7 @@ def _make_run(spec, limits):
         model = mudslide.models.HarmonicModel(np.zeros(nd), 0.0, H0, np.array(spec["mass"]))
         return mudslide.AdiabaticMD(model, np.array(spec["x0"]), np.array(spec["p0"]), **opts), model
     model = mudslide.models.scattering_models[spec["model"]]()
-    opts["zeta_list"] = [1.0] * 5000
+    opts["zeta_list"] = [1e300] * 5000
     tr = getattr(mudslide, spec["cls"])(model, np.array(spec["x0"]), np.array(spec["p0"]), 0, **opts)
     return tr, model
 
